@@ -32,6 +32,7 @@ def make (s : State) (t : Triple) (ops : List OpPool.Rec) : State × Nat :=
 inductive Op where
   | make (t : Triple) (ops : List OpPool.Rec)        -- Make or PreferEmpty (ops = [] for the latter)
   | foreign (f : Nat) (t : Triple) (p : Nat)          -- SetProposal of some other proposer's proposal
+  | makeFail (t : Triple) (ops : List OpPool.Rec)    -- Make or PreferEmpty while the pool's SetProposal fails
 deriving Repr
 
 /-- foreign facts/proposals use ids ≥ 1000000 in the driver; in the theorems the only requirement
@@ -39,5 +40,20 @@ deriving Repr
 def step (s : State) : Op → State × Option Nat
   | .make t ops => let r := make s t ops; (r.1, some r.2)
   | .foreign f t p => ({ s with pool := (setProposal s.pool f t p).1 }, none)
+  -- the pooled proposal is found before anything is written; otherwise a proposal is made and signed (it takes its
+  -- ids), the write fails, and the error is returned instead of the proposal
+  | .makeFail t _ =>
+    match proposalByPoint s.pool t with
+    | some p => (s, some p)
+    | none => ({ s with next := s.next + 1 }, none)
+
+/-- the maker that hands the signed proposal out although it could not be stored (`makeProposal` logging the
+    `SetProposal` error instead of returning it) -/
+def stepLoose (s : State) : Op → State × Option Nat
+  | .makeFail t _ =>
+    match proposalByPoint s.pool t with
+    | some p => (s, some p)
+    | none => ({ s with next := s.next + 1 }, some s.next)
+  | op => step s op
 
 end Mitum.ProposalMaker
